@@ -43,23 +43,24 @@ pub fn offset_to_location<const S: usize>(file: &str, offsets: &[u32; S]) -> [Co
 	let mut out = [CodeLocation::default(); S];
 	let mut with_no_known_line_ending = vec![];
 	let mut this_line_offset = 0;
+	// Offsets are byte offsets: walk byte positions (`char_indices`), not character indices.
 	for (pos, ch) in file
-		.chars()
-		.enumerate()
+		.char_indices()
 		.chain(std::iter::once((file.len(), ' ')))
 	{
 		column += 1;
-		match offset_map.last() {
-			Some(x) if x.0 == pos as u32 => {
-				let out_idx = x.1;
-				with_no_known_line_ending.push(out_idx);
-				out[out_idx].offset = pos;
-				out[out_idx].line = line;
-				out[out_idx].column = column;
-				out[out_idx].line_start_offset = this_line_offset;
-				offset_map.pop();
+		// The same offset may be requested more than once (empty spans): answer all of them.
+		while let Some(x) = offset_map.last() {
+			if x.0 != pos as u32 {
+				break;
 			}
-			_ => {}
+			let out_idx = x.1;
+			with_no_known_line_ending.push(out_idx);
+			out[out_idx].offset = pos;
+			out[out_idx].line = line;
+			out[out_idx].column = column;
+			out[out_idx].line_start_offset = this_line_offset;
+			offset_map.pop();
 		}
 		if ch == '\n' {
 			line += 1;
@@ -75,7 +76,7 @@ pub fn offset_to_location<const S: usize>(file: &str, offsets: &[u32; S]) -> [Co
 			}
 		}
 	}
-	let file_end = file.chars().count();
+	let file_end = file.len();
 	for idx in with_no_known_line_ending {
 		out[idx].line_end_offset = file_end;
 	}
